@@ -208,7 +208,7 @@ var depExemptions = map[string]string{
 
 func checkC04(p *Prog, r *Report) {
 	r.Rule("R04a", "reference/dependency pairing: wherever the translator embeds a non-constant name as a Gallina global (StructDesc, NewStructLiteral, InterfaceMethodName, conversion to StructName/GallinaIdent/TypeIdent, StructFieldAccessExpr.Struct, StructToInterface*.{Struct,Interface}) and the name can denote a same-package definition, the same value is passed to depTracker.addDep in the same function on every path through the reference; names that are parameters move the obligation to every caller; constant/prelude-prefixed/other-package/binder names are exempt by class", 20)
-	r.Rule("R04b", "name registration: each definition-producing handler registers the final definition name with addName: in funcDecl every store to the declaration's Name precedes the registration of that same field; const/var/type handlers register before producing the declaration", 4)
+	r.Rule("R04b", "name registration: each definition-producing handler registers the final definition name with addName: in funcDecl every store to the declaration's Name precedes the registration of that same field; const/var/type handlers register before producing the declaration", 3)
 	r.Rule("R04c", "emission order (the processDecl closure): the generated[id] test-and-set precedes everything; the recursive calls over the dependencies are guarded by nothing but the name-table lookup and precede every append to the output; the outer loops visit every (file, declaration) index unconditionally", 5)
 	r.Rule("R04d", "one naming function: method names are produced only by coq.MethodName (no hand-written \"__\" formatting in the translator); definition site and use sites call it with (receiver type name, method name); self-reference goes through coqRecurFunc", 4)
 	r.Rule("R04e", "mangling injectivity: identifiers containing \"__\" are rejected where definitions are named (otherwise method T.m and function T__m collide)", 1)
@@ -401,7 +401,17 @@ func c04Pairing(p *Prog, r *Report) {
 }
 
 func c04Registration(p *Prog, r *Report) {
-	fd := p.Func(Mod, "Ctx.funcDecl")
+	// the producer of function definitions: the function that assigns coq.FuncDecl.Name
+	var fd *ssa.Function
+	for _, g := range p.FuncsIn(Mod) {
+		p.instrs(g, func(b *ssa.BasicBlock, i int, in ssa.Instruction) {
+			if st, ok := in.(*ssa.Store); ok {
+				if o, fld, okf := fieldOf(st.Addr); okf && o.Obj().Name() == "FuncDecl" && o.Obj().Pkg().Path() == coqPkg && fld == "Name" {
+					fd = g
+				}
+			}
+		})
+	}
 	if fd == nil {
 		r.Anchor("R04b", "goose.Ctx.funcDecl")
 	} else {
@@ -440,61 +450,65 @@ func c04Registration(p *Prog, r *Report) {
 			r.Check("R04b", "funcDecl registers the final definition name", instrPos(reg), ok, why)
 		}
 	}
-	// const / var / type handlers: an addName dominates each production of a declaration
-	for _, hn := range []string{"Ctx.constDecl", "Ctx.globalVarDecl"} {
-		h := p.Func(Mod, hn)
-		if h == nil {
-			r.Anchor("R04b", "goose."+hn)
-			continue
+	// const / var / type producers: wherever a function that turns a *ast.ValueSpec or *ast.TypeSpec into a
+	// coq declaration is called, a registration of that same spec's name dominates the call.
+	isProducer := func(g *ssa.Function) (specIdx int, kind string) {
+		if g == nil || g.Pkg == nil || g.Pkg.Pkg.Path() != Mod || g.Signature.Results().Len() != 1 {
+			return -1, ""
 		}
-		r.Func(FuncName(h))
-		var regs []*ssa.Call
-		var prods []*ssa.Call
-		p.instrs(h, func(b *ssa.BasicBlock, i int, in ssa.Instruction) {
-			if c, ok := in.(*ssa.Call); ok {
-				if strings.HasSuffix(calleeName(c), "depTracker).addName") {
-					regs = append(regs, c)
-				}
-				if strings.HasSuffix(calleeName(c), ".constSpec") {
-					prods = append(prods, c)
-				}
-			}
-		})
-		ok := len(regs) == 1 && len(prods) == 1 && regs[0].Block() == prods[0].Block()
-		why := fmt.Sprintf("%d registrations, %d productions", len(regs), len(prods))
-		if ok {
-			// registered name is Names[0].Name of the same spec that is translated
-			rk := sk(regs[0].Call.Args[1])
-			pk := sk(prods[0].Call.Args[1])
-			if !strings.HasPrefix(rk, pk+".Names[0]") || !strings.HasSuffix(rk, ".Name") {
-				ok, why = false, "registers "+rk+" while translating "+pk
+		rt := types.TypeString(g.Signature.Results().At(0).Type(), nil)
+		if !strings.HasPrefix(rt, coqPkg+".") || !strings.HasSuffix(rt, "Decl") {
+			return -1, ""
+		}
+		for i, pa := range g.Params {
+			switch types.TypeString(pa.Type(), nil) {
+			case "*go/ast.ValueSpec":
+				return i, "ValueSpec"
+			case "*go/ast.TypeSpec":
+				return i, "TypeSpec"
 			}
 		}
-		r.Check("R04b", hn+" registers each spec's name", h.Pos(), ok, why)
+		return -1, ""
 	}
-	if md := p.Func(Mod, "Ctx.maybeDecls"); md != nil {
-		var reg, td *ssa.Call
-		p.instrs(md, func(b *ssa.BasicBlock, i int, in ssa.Instruction) {
-			if c, ok := in.(*ssa.Call); ok {
-				if strings.HasSuffix(calleeName(c), "depTracker).addName") {
-					reg = c
-				}
-				if strings.HasSuffix(calleeName(c), ".typeDecl") {
-					td = c
-				}
+	nProd := 0
+	for _, h := range p.FuncsIn(Mod) {
+		var regs []*ssa.Call
+		p.instrs(h, func(b *ssa.BasicBlock, i int, in ssa.Instruction) {
+			if c, ok := in.(*ssa.Call); ok && strings.HasSuffix(calleeName(c), "depTracker).addName") {
+				regs = append(regs, c)
 			}
 		})
-		ok := reg != nil && td != nil && dominatesInstr(reg, td)
-		why := "type declarations are translated without registering their name"
-		if ok {
-			rk, sk := sk(reg.Call.Args[1]), sk(td.Call.Args[2])
-			if rk != sk+".Name.Name" {
-				ok, why = false, "registers "+rk+" while translating "+sk
+		p.instrs(h, func(b *ssa.BasicBlock, i int, in ssa.Instruction) {
+			c, ok := in.(*ssa.Call)
+			if !ok {
+				return
 			}
-		}
-		r.Check("R04b", "type declarations register their name", md.Pos(), ok, why)
-	} else {
-		r.Anchor("R04b", "goose.Ctx.maybeDecls")
+			g := calleeOf(&c.Call)
+			idx, kind := isProducer(g)
+			if idx < 0 || idx >= len(c.Call.Args) {
+				return
+			}
+			if _, k2 := isProducer(h); k2 == kind {
+				return // a producer delegating to another producer of the same spec
+			}
+			nProd++
+			r.Func(FuncName(h))
+			pk := sk(c.Call.Args[idx])
+			want := pk + ".Names[0].Name"
+			if kind == "TypeSpec" {
+				want = pk + ".Name.Name"
+			}
+			ok2, why := false, fmt.Sprintf("%s(%s) is called without a dominating addName(%s): the definition is emitted but never registered, so nothing can depend on it", g.Name(), pk, want)
+			for _, reg := range regs {
+				if sk(reg.Call.Args[1]) == want && dominatesInstr(reg, c) {
+					ok2, why = true, ""
+				}
+			}
+			r.Check("R04b", fmt.Sprintf("%s: the %s's name is registered before %s translates it", h.Name(), kind, g.Name()), instrPos(c), ok2, why)
+		})
+	}
+	if nProd < 2 {
+		r.Unknown("R04b", "const/var/type producers", token.NoPos, fmt.Sprintf("%d call sites of spec-to-declaration producers found", nProd))
 	}
 }
 
